@@ -50,6 +50,11 @@ def zeroPadParams : List String := ["seq", "left", "right", "zero"]
 
 /-! ### spellings -/
 
+/-- the floats that are not finite -/
+inductive NonFin where
+  | pinf | ninf | nan
+  deriving DecidableEq, Repr
+
 /-- a parameter value as the arithmetic of the code sees it -/
 inductive Num where
   | int (i : Int)      -- int, bool (True = 1, False = 0), int subclasses
@@ -57,6 +62,7 @@ inductive Num where
   | frac (q : Rat)     -- fractions.Fraction
   | none               -- None
   | other              -- str / any object without arithmetic
+  | fnf (k : NonFin)   -- float('inf'), float('-inf'), float('nan')
   deriving DecidableEq
 
 inductive PyErr where
@@ -87,6 +93,7 @@ def initSize : Num → Except PyErr Nat
 inductive HopV where
   | int (h : Int)
   | rat (q : Rat)      -- float or Fraction: `size - hop` has no `__index__`
+  | nonfin (k : NonFin)
 
 /-- `if hop is None: hop = size`; `reinit_idx = size - hop` -/
 def initHop (size : Nat) : Num → Except PyErr HopV
@@ -94,7 +101,53 @@ def initHop (size : Nat) : Num → Except PyErr HopV
   | .int h => .ok (.int h)
   | .flt q => .ok (.rat q)
   | .frac q => .ok (.rat q)
+  | .fnf k => .ok (.nonfin k)
   | .other => .error .typeError
+
+/-! ### index arithmetic with a non-finite float in play
+
+IEEE-754 on the values that occur when `hop` is `inf` / `-inf` / `nan` and `size` is an int: the finite part is
+exact (small whole numbers), `±inf + 1 = ±inf`, `nan` propagates, every comparison with `nan` is false. -/
+
+inductive XRat where
+  | fin (q : Rat)
+  | pinf | ninf | nan
+  deriving DecidableEq
+
+def XRat.add : XRat → XRat → XRat
+  | .fin a, .fin b => .fin (a + b)
+  | .nan, _ => .nan
+  | _, .nan => .nan
+  | .pinf, .ninf => .nan
+  | .ninf, .pinf => .nan
+  | .pinf, _ => .pinf
+  | _, .pinf => .pinf
+  | .ninf, _ => .ninf
+  | _, .ninf => .ninf
+
+def XRat.ltb : XRat → XRat → Bool
+  | .fin a, .fin b => decide (a < b)
+  | .ninf, .fin _ => true
+  | .ninf, .pinf => true
+  | .fin _, .pinf => true
+  | _, _ => false
+
+instance : Add XRat := ⟨XRat.add⟩
+instance : LT XRat := ⟨fun a b => XRat.ltb a b = true⟩
+instance : DecidableRel (fun a b : XRat => a < b) := fun a b => inferInstanceAs (Decidable (XRat.ltb a b = true))
+instance : OfNat XRat 0 := ⟨.fin 0⟩
+instance : OfNat XRat 1 := ⟨.fin 1⟩
+
+/-- `size - hop` for a non-finite `hop` -/
+def XRat.sizeMinus : NonFin → XRat
+  | .pinf => .ninf
+  | .ninf => .pinf
+  | .nan => .nan
+
+/-- the int an index stands for (only asked of indices that are still Python ints) -/
+def XRat.toN : XRat → Nat
+  | .fin q => q.floor.toNat
+  | _ => 0
 
 /-! ### the loops over an index type -/
 section Generic
@@ -162,6 +215,7 @@ def blocksCall (dflt : α) (size hop : Num) (padval : Option α) (iterable : Boo
       else match hv with
         | .int h => grun sz ((sz : Int) - 1) ((sz : Int) - h) true Int.toNat pad xs e
         | .rat q => grun sz ((sz : Rat) - 1) ((sz : Rat) - q) false (fun r => r.floor.toNat) pad xs e
+        | .nonfin k => grun sz (XRat.fin ((sz : Rat) - 1)) (XRat.sizeMinus k) false XRat.toN pad xs e
 
 /-- the call as written: positional and keyword arguments (values of type `α`, read as numbers by
 `asNum` and as the data argument by `asIter`); `none` = TypeError when the call is made. -/
